@@ -8,5 +8,6 @@ CONSTANTS
   Fuse = TRUE
   ExtChoice = "small"
   ReqChoice = "small"
+  TrChoice = "direct"
 VIEW MCView
-INVARIANTS TypeOK I1 I2 I3 I4 I5
+INVARIANTS TypeOK I0 I1 I2 I3 I4 I5 I6 I7
